@@ -96,6 +96,8 @@ pub fn gen_case(t: &mut Tape) -> Case {
     let lifetime_trait = !generic_trait && !dynamic && t.chance(1, 5);
     let supertrait = t.chance(1, 4);
     let no_send = any_async && !use_async_trait && t.chance(1, 5);
+    // `?Send` with a `dyn` selector (and `#[async_trait(?Send)]`): then nothing asks `T: Send` either
+    let no_send_dyn = dynamic && any_async && t.chance(1, 4);
     let n = t.range(1, 5);
     let names = prog::member_names(t, n);
     let mut methods: Vec<Method> = vec![];
@@ -200,7 +202,7 @@ pub fn gen_case(t: &mut Tape) -> Case {
         3 => opts.push("delegate_by = Borrow".into()),
         _ => {}
     }
-    if no_send {
+    if no_send || no_send_dyn {
         opts.push("?Send".into());
     }
     if t.chance(1, 4) {
@@ -244,7 +246,7 @@ pub fn gen_case(t: &mut Tape) -> Case {
         sups.push("'static");
     }
     let sup_src = if sups.is_empty() { String::new() } else { format!(": {}", sups.join(" + ")) };
-    let at = if use_async_trait { "#[::async_trait::async_trait]\n" } else { "" };
+    let at = if no_send_dyn { "#[::async_trait::async_trait(?Send)]\n" } else if use_async_trait { "#[::async_trait::async_trait]\n" } else { "" };
 
     let mut src = String::from("#![allow(warnings)]\nuse crate::rt;\nuse ::core::marker::PhantomData;\n#[derive(Debug, Clone, PartialEq)] pub struct N(pub i32);\n#[derive(Debug, Clone, PartialEq)] pub struct S { pub a: i32 }\n");
     src.push_str("pub trait Proj { type Out: ::core::fmt::Debug; const NAME: &'static str; }\nimpl Proj for u16 { type Out = i32; const NAME: &'static str = \"u16\"; }\n");
@@ -410,8 +412,8 @@ pub fn gen_case(t: &mut Tape) -> Case {
     src.push_str("pub struct NoProvider;\n");
     // a provider that is Sync + 'static but not Send: nothing in the statement asks for Send
     let nsend_field = "::core::marker::PhantomData<::std::sync::MutexGuard<'static, ()>>";
-    // don't-care: async + ref/Borrow (the code adds `T: Send` there), and a method that takes `self` by value (likewise)
-    let probe_not_send = !(dynamic && any_async) && !byval_mut;
+    // don't-care: async + ref/Borrow without `?Send` (the code adds `T: Send` there), and a method that takes `self` by value (likewise)
+    let probe_not_send = !(dynamic && any_async && !no_send_dyn) && !byval_mut;
     if probe_not_send {
         if dynamic {
             let (tr, f) = if selector == 2 { ("AsRef", "as_ref") } else { ("::core::borrow::Borrow", "borrow") };
@@ -602,6 +604,9 @@ pub fn gen_case(t: &mut Tape) -> Case {
     }
     if deprecated_trait {
         classes.push("deprecated_trait_under_deny_deprecated");
+    }
+    if no_send_dyn {
+        classes.push("maybe_send_with_a_dyn_selector");
     }
     if recv_fragment {
         classes.push("receiver_type_from_a_macro_rules_ty_fragment");
